@@ -232,7 +232,7 @@ def rule_bin_cover(ctx, rid):
     edges = dg[2][1]
     sel = None
     for t in subterms(val):
-        if t[0] == 'cmp' and ls.var in (t[2], t[3]) and _find_digitize(t) is not None:
+        if t[0] == 'cmp' and ls.var in set(subterms(t)) and _find_digitize(t) is not None:
             sel = t
     it = ls.iter_term
     # allocation: rows of avg
@@ -256,7 +256,7 @@ def rule_bin_cover(ctx, rid):
                         r = el.ev(rowt)
                         hits.append(r)
                         rows_written.add(r)
-                want = [p.k - 1] if p.kind == 'in' else []
+                want = [p.k - 1] if p.kind == 'in' else ([0] if p.kind == 'at_first' else [])
                 if hits != want:
                     problem = ('nbins=%d: phase class %s is %s, expected %s'
                                % (nb, p, 'averaged into row %s' % hits if hits else 'never averaged (row stays NaN)',
